@@ -124,9 +124,21 @@ let run_f2 (t : string array) : string =
     let st = ref st0 in
     let out = Buffer.create 64 in
     for i = 3 to Array.length t - 1 do
-      let (st', _) = AllocHist.a_step fx !st (parse_op t.(i)) in
+      let o = parse_op t.(i) in
+      (* is this step itself a substring of an inline atom that cannot be stored inline? (it is
+         that also when the repaired code then refuses it for lack of heap) *)
+      let here = (match o with
+          | AllocHist.ONewSubstr (i, s, e) ->
+            (match Alloc.nth_N (AllocHist.a_nodes !st) i with
+             | Some x ->
+               (match Alloc.new_substr_gen false (AllocHist.a_al !st) x s e with
+                | Err.Ok (_, Alloc.SubSmallHeap) -> true
+                | _ -> false)
+             | None -> false)
+          | _ -> false) in
+      let (st', _) = AllocHist.a_step fx !st o in
       st := st';
-      Buffer.add_char out (if AllocHist.a_f2 st' then '1' else '0')
+      Buffer.add_char out (if AllocHist.a_f2 st' || here then '1' else '0')
     done;
     if Buffer.length out = 0 then "-" else Buffer.contents out
 
